@@ -202,7 +202,11 @@ def ex(e):
         return {"not": "!", "neg": "-", "deref": "*"}[e[1]] + operand(e[2], 2)
     if h == "bin":
         lv = BIN_LEVEL.get(e[1], 14)
-        return operand(e[2], lv) + " " + e[1] + " " + operand(e[3], lv, True)
+        rhs = operand(e[3], lv, True)
+        if e[1] == "?" and not MINIMAL[0] and rhs.startswith(("()", "[]")):
+            # `it ? ()` / `it ? [][0]` would be read as the type filter `? ()` / `? []`
+            rhs = "(" + rhs + ")"
+        return operand(e[2], lv) + " " + e[1] + " " + rhs
     if h == "reduce":
         if MINIMAL[0]:
             init = ex(e[2])
@@ -211,6 +215,8 @@ def ex(e):
             return operand(e[1], 3) + " $" + init + " " + operand(e[3], 3, True)
         # the function must not be wrapped in parentheses: `$(init) (f)` would read `(init)(f)` as a call
         assert e[3][0] in ("fn", "id"), e
+        # `$(init) () {..}`: a literal without parameters would be read as the call `(init)()`
+        assert not (e[3][0] == "fn" and not e[3][1]), e
         return paren(e[1]) + " $(" + ex(e[2]) + ") " + ex(e[3])
     if h == "at":
         return paren(e[1]) + "[" + ex(e[2]) + "]"
